@@ -52,9 +52,30 @@ package ice
 //@   ensures last-writer-owns-the-address: !old(closed(m.closedChan)) && m.addressMap != nil ==> has(m.addressMap, addr) && m.addressMap[addr] == conn
 //@   ensures closed-mux-registers-nothing: old(closed(m.closedChan)) ==> unchangedExcept()
 
+//@ spec macro listsAddr(c *udpMuxedConn, addr netip.AddrPort) = (exists i int :: 0 <= i && i < len(c.addresses) && c.addresses[i] == addr)
+//@ func (*udpMuxedConn).containsAddress
+//@   props C12
+//@   opt nosafety
+//@   modifies c.mu
+//@   ensures says-whether-the-address-is-listed: result == listsAddr(c, addr)
+//@ func (*udpMuxedConn).removeAddress
+//@   props C12
+//@   opt nosafety
+//@   modifies c.addresses, c.mu, fam:E_netip.AddrPort
+//@ func (*udpMuxedConn).addAddress
+//@   props C12
+//@   opt nosafety
+//@   site call registerConnForAddress#1 assert the-address-is-listed-before-it-is-bound-to-this-connection: listsAddr(c, addr) && arg1 == c && arg2 == addr
 //@ func (*udpMuxedConn).registerAddress
 //@   props C12
-//@   site call addAddress#1 assert registers-new-addresses-only: arg0 == c && arg1 == addr
+//@   opt nosafety
+//@   ghostvar listed bool = false
+//@   ghostvar added bool = false
+//@   site call containsAddress#1 assert looks-for-exactly-the-destination: arg0 == c && arg1 == addr
+//@   site call containsAddress#1 ghost listed := result
+//@   site call addAddress#1 assert registers-new-addresses-only: arg0 == c && arg1 == addr && !listed
+//@   site call addAddress#1 ghost added := true
+//@   ensures every-write-finds-the-destination-listed-or-registers-it: listed || added
 
 //@ func (*udpMuxedConn).WriteTo
 //@   props C12
@@ -213,3 +234,27 @@ package ice
 //@   props C12
 //@   opt nosafety
 //@   site call GetConn#1 assert per-url-connection-on-its-own-mux: arg0 == m.UDPMuxDefault && arg2 == addr
+
+// The universal mux looks at STUN responses from its STUN servers on their way to the receive loop, but it
+// never consumes a datagram: every call performs exactly one read of the socket into the caller's buffer and
+// passes on exactly what that read returned (a peer may share its transport address with a STUN server).
+//@ func (*udpConn).ReadFrom
+//@   props C12
+//@   opt nosafety
+//@   ghostvar reads int = 0
+//@   ghostvar gotN int = 0
+//@   site call ReadFrom#0 assert reads-into-the-callers-buffer: arg0 == buf
+//@   site call ReadFrom#0 ghost reads := reads + 1
+//@   site call ReadFrom#0 ghost gotN := result0
+//@   ensures every-datagram-read-from-the-socket-is-passed-on: reads == 1 && n == gotN
+//@ func (*udpAddrPortConn).ReadFromAddrPort
+//@   props C12
+//@   opt nosafety
+//@   ghostvar reads int = 0
+//@   ghostvar gotN int = 0
+//@   ghostvar gotSrc int = 0
+//@   site call ReadFromAddrPort#0 assert reads-into-the-callers-buffer: arg0 == buf
+//@   site call ReadFromAddrPort#0 ghost reads := reads + 1
+//@   site call ReadFromAddrPort#0 ghost gotN := result0
+//@   site call ReadFromAddrPort#0 ghost gotSrc := result1
+//@   ensures every-datagram-read-from-the-socket-is-passed-on-with-its-source: reads == 1 && n == gotN && addrPort == gotSrc
